@@ -339,6 +339,31 @@ example : noEmptyLoops (wcifOf sR3) = true := by decide +kernel
 example : ((walkStore allCont sR3).1.filter (fun e => match e with | .item k v => k == a!"_x" && v == vR | _ => false)).length = 2 := by
   decide +kernel
 example : C07_HandleFor sR3.db lR 1 (a!"_x") := ⟨by decide +kernel, rfl, by decide +kernel⟩
+-- nested save frames: block b { save f { save g { _x } } } — the position hypotheses of C07_WalkDelivers through C07_walk_frame_position
+private def sF1 : Store := (createFrame sR0 hR (some (nmR (a!"f")))).1
+private def hF : CH := { id := 2, code := a!"f", isBlock := false }
+private def sF2 : Store := (createFrame sF1 hF (some (nmR (a!"g")))).1
+private def hG : CH := { id := 3, code := a!"g", isBlock := false }
+private def sF3 : Store := (setValueC sF2 hG (nmR (a!"_x")) vR).1
+private theorem chainF : FrameChain sF3 hR [hF, hG] := by
+  refine ⟨⟨_, rfl, ?_⟩, ⟨_, rfl, ?_⟩, trivial⟩
+  · have h : (sF3.db.frames.filter (fun f => f.parent == hR.id)).any (fun f => f.cid == 2 && f.nameOrig == a!"f") = true := by
+      decide +kernel
+    obtain ⟨f, hf, hp⟩ := List.any_eq_true.mp h
+    simp only [Bool.and_eq_true, beq_iff_eq] at hp
+    refine List.mem_map.mpr ⟨f, hf, ?_⟩
+    simp only [hp.1, hp.2, hF]
+  · have h : (sF3.db.frames.filter (fun f => f.parent == hF.id)).any (fun f => f.cid == 3 && f.nameOrig == a!"g") = true := by
+      decide +kernel
+    obtain ⟨f, hf, hp⟩ := List.any_eq_true.mp h
+    simp only [Bool.and_eq_true, beq_iff_eq] at hp
+    refine List.mem_map.mpr ⟨f, hf, ?_⟩
+    simp only [hp.1, hp.2, hG]
+example : (sF3.db.blocks.map (·.cid), sF3.db.frames.length) = ([1], 2) := by decide +kernel
+-- the hypotheses of C07_walk_frame_position hold for this chain (length 2 ≤ 2 frames + 1); its block hypothesis is C07_walk_block_position's
+example : [hF, hG].length ≤ sF3.db.frames.length + 1 := by decide +kernel
+example : ((walkStore allCont sF3).1.filter (fun e => match e with | .item k v => k == a!"_x" && v == vR | _ => false)).length = 1 := by
+  decide +kernel
 -- numbers: the parsed, and a produced one whose text alone gives the doubles back
 example : C07_numbProduced (Model.Numb.numbOfText false (a!"-1.50e3(2)")) :=
   C07_numbProduced.parsed _ _ ⟨true, [1, 5, 0], some [2], -3 + 2⟩ (by decide +kernel)
